@@ -176,7 +176,17 @@ pub fn run(args: &Args) {
                     let eos = Arc::new(GcPcSaft::new(Arc::new(p.clone_params())));
                     State::critical_point(&eos, None, None, SolverOptions::default()).is_ok()
                 });
-                tr.ev(json!({"ev":"GcSubstance","idx":i,"name":name,"segments":c.segments,"homo":homo.is_ok(),"hetero":hetero.is_ok(),"joback":jb.is_ok(),
+                // every shipped segment table, not only the one the model is usually used with
+                let mut tables = vec![];
+                for f in ["pcsaft/sauer2014_homo.json", "pcsaft/rehner2023_homo.json", "pcsaft/loetgeringlin2015_homo.json"] {
+                    let r = PcSaftParameters::from_json_segments(&[name.as_str()], ppath("pcsaft/gc_substances.json"), ppath(f), None, IdentifierOption::Name);
+                    tables.push(json!({"table": f, "ok": r.is_ok(), "err": r.err().map(|e| e.to_string()).unwrap_or_default()}));
+                }
+                for f in ["pcsaft/sauer2014_hetero.json", "pcsaft/rehner2023_hetero.json"] {
+                    let r = GcPcSaftEosParameters::from_json_segments(&[name.as_str()], ppath("pcsaft/gc_substances.json"), ppath(f), None, IdentifierOption::Name);
+                    tables.push(json!({"table": f, "ok": r.is_ok(), "err": r.err().map(|e| e.to_string()).unwrap_or_default()}));
+                }
+                tr.ev(json!({"ev":"GcSubstance","idx":i,"name":name,"segments":c.segments,"tables":tables,"homo":homo.is_ok(),"hetero":hetero.is_ok(),"joback":jb.is_ok(),
                     "homo_err":homo.err().map(|e| e.to_string()).unwrap_or_default(),"hetero_critical_point":usable.unwrap_or(false)}));
             }
         }
